@@ -672,3 +672,263 @@ Theorem C16_heap_conform_static_nonvacuous :
     PatchExact.doc_same (reify (h_str h') docT) e.
 Proof. exact py_static. Qed.
 Print Assumptions C16_heap_conform_static_nonvacuous.
+
+(** ------------------------------------------------------------------ 9. allocation failure: an ARBITRARY oracle *)
+From CJ Require Import PatchHeapFailDefs PatchHeapFailCons PatchHeapFail PatchHeapFailFinish PatchHeapFailApply PatchHeapFailTest
+  PatchHeapFailLoop PatchHeapFailEx.
+
+(** (a) the generic half, no hypothesis on the arguments: whenever the heap-level [apply_patch] / entry points RETURN from
+    a sane heap — under ANY schedule of refused requests — the heap is sane again, identities were only handed out upwards,
+    ownership tags are unchanged and every block the library only borrows is live with bit-identical contents *)
+Theorem C16_heap_fail_conservative : forall oracle o p cs,
+  CoreLedgerGen.Cons (apply_patch oracle o p cs) /\ CoreLedgerGen.Cons (cJSONUtils_ApplyPatches oracle o p) /\
+  CoreLedgerGen.Cons (cJSONUtils_ApplyPatchesCaseSensitive oracle o p).
+Proof.
+  exact (fun oracle o p cs => conj (Cons_apply_patch oracle o p cs)
+           (conj (Cons_cJSONUtils_ApplyPatches oracle o p) (Cons_cJSONUtils_ApplyPatchesCaseSensitive oracle o p))).
+Qed.
+Print Assumptions C16_heap_fail_conservative.
+
+(** (b) the VALUE-level model with refusals (PatchHeapFailDefs.v): five flags, one per place where apply_patch requests
+    memory — [f_rid] / [f_from]: the copy of the path inside detach_path (remove, replace / move): status 13 / 5; [f_dup]:
+    cJSON_Duplicate: status 8 / 6; [f_path]: the copy of the path for the insertion: status 9, the value is deleted;
+    [f_key]: the copy of the member name inside cJSON_AddItemToObject, whose result apply_patch IGNORES: status 0, the
+    value is leaked.  Without refusals it is the model of Properties_C16. *)
+Theorem C16_heap_fail_model_none : forall o p cs,
+  apply_patch_f no_fails o p cs = ' (st, d, p') <- PatchDefs.apply_patch o p cs ;; Ok (st, d, p', None).
+Proof. exact apply_patch_f_none. Qed.
+Theorem C16_heap_fail_finish_is : forall fs object value pstr cs,
+  finish_add_f fs object value pstr cs =
+  if PatchDefs.is_nil pstr then Ok (0, PatchDefs.unnamed value, None)
+  else if f_path fs then Ok (9, object, None)
+  else
+    match PatchDefs.last_slash pstr 0 None with
+    | None => Ok (9, object, None)
+    | Some i =>
+        match PointerDefs.get_item_from_pointer object (take i pstr) cs with
+        | None => Ok (9, object, None)
+        | Some pp =>
+            match Tree.subtree object pp with
+            | None => Ok (9, object, None)
+            | Some par =>
+                if Tree.is_array par then
+                  if strcmp (drop (S i) pstr) PatchDefs.s_dash =? 0 then
+                    Ok (0, PatchDefs.put_subtree object pp (v_add_to_array par value), None)
+                  else
+                    match PointerDefs.decode_array_index_from_pointer (drop (S i) pstr) with
+                    | None => Ok (11, object, None)
+                    | Some idx =>
+                        match v_insert_in_array par idx value with
+                        | None => Ok (10, object, None)
+                        | Some par' => Ok (0, PatchDefs.put_subtree object pp par', None)
+                        end
+                    end
+                else if Tree.is_object par then
+                  buf <- PatchDefs.decode_pointer_inplace (drop (S i) pstr ++ [0]) ;;
+                  let par1 := v_delete_from_object par (cstr buf) cs in
+                  if f_key fs then Ok (0, PatchDefs.put_subtree object pp par1, Some value)
+                  else Ok (0, PatchDefs.put_subtree object pp (v_add_to_object par1 (cstr buf) value), None)
+                else Ok (9, object, None)
+            end
+        end
+    end.
+Proof. exact finish_add_f_unfold. Qed.
+
+(** (c) the steps.  [detach_path] makes ONE request, at its entry: refused — NULL from the heap with only the request
+    counter advanced; granted — the run with the never-failing allocator (C16_heap_detach_path) *)
+Theorem C16_heap_fail_detach_path : forall oracle h object pb (sp : bytes) flag,
+  pb ∈ h_live h -> h_str h !! pb = Some sp -> existsb (Z.eqb 0) sp = true ->
+  detach_path oracle object (Some pb) flag h =
+  if oracle (h_req h) then Ret (None, bump h) else detach_path nofail object (Some pb) flag h.
+Proof. exact detach_path_oracle. Qed.
+(** [cJSON_Duplicate] of a node of the forest, any oracle: NULL with forest, strings and ledger as before (a refusal — the
+    partial copy is released — or the nesting limit), or the copy the value-level model makes as a new last root *)
+Theorem C16_heap_fail_duplicate : forall oracle h F pp tp,
+  MInv h F -> Forest.find_tree pp F = Some tp ->
+  (exists h', cJSON_Duplicate oracle (Some pp) true h = Ret (None, h') /\ MInv h' F /\ (NoLeak h F -> NoLeak h' F) /\
+              h_str h' = h_str h /\ lib_live h' = lib_live h /\ (h_next h <= h_next h')%positive) \/
+  (exists tc h', cJSON_Duplicate oracle (Some pp) true h = Ret (Some (tid tc), h') /\
+                 MInv h' (F ++ [tc]) /\ (NoLeak h F -> NoLeak h' (F ++ [tc])) /\ KeepO h h' F /\
+                 PatchDefs.cJSON_Duplicate (reify (h_str h) tp) = Some (reify (h_str h') tc) /\
+                 (h_next h <= h_next h')%positive).
+Proof. exact step_dup_oracle. Qed.
+Print Assumptions C16_heap_fail_duplicate.
+(** "Now, just add value to path", any oracle: the run refines [finish_add_f] for SOME choice of [f_path], [f_key]; with a
+    leaked value ([Some lv]) the invariant and [NoLeak] hold for the forest with the value [v] as one more root *)
+Theorem C16_heap_fail_finish : forall oracle h G doc x dx csx pn dpn cpn pb (sp : bytes) flag,
+  MInv h ((G ++ [doc]) ++ [T x dx csx]) ->
+  T pn dpn cpn ∈ nodes G -> rd_vstr dpn = Some pb ->
+  pb ∈ h_live h -> h_str h !! pb = Some sp -> existsb (Z.eqb 0) sp = true ->
+  exists fp fk : bool, forall fr ff fd,
+  match finish_add_f (mkFails fr ff fd fp fk) (reify (h_str h) doc) (reify (h_str h) (T x dx csx)) (cstr sp) flag with
+  | Ok (st, doc', lk) =>
+      exists h' docT,
+        apply_patch_finish oracle (Some (tid doc)) (Some pn) (Some x) flag h = Ret (st, h') /\ tid docT = tid doc /\
+        reify (h_str h') docT = doc' /\ KeepO h h' G /\ (h_next h <= h_next h')%positive /\
+        match lk with
+        | None => MInv h' (G ++ [docT]) /\ (NoLeak h ((G ++ [doc]) ++ [T x dx csx]) -> NoLeak h' (G ++ [docT]))
+        | Some lv => MInv h' ((G ++ [docT]) ++ [T x dx csx]) /\
+                     (NoLeak h ((G ++ [doc]) ++ [T x dx csx]) -> NoLeak h' ((G ++ [docT]) ++ [T x dx csx])) /\
+                     reify (h_str h') (T x dx csx) = lv
+        end
+  | _ => False
+  end.
+Proof. exact finish_oracle. Qed.
+Print Assumptions C16_heap_fail_finish.
+
+(** (d) ONE OPERATION, ANY ORACLE.  From [MInv h (G ++ [doc])] with the patch object in [G] (opcode anything but "test"):
+    there is a choice [fs] of the refusal flags such that, whenever the model with refusals returns [Ok (st, doc', pt', lk)]
+    (it returns OOB only for a String-typed "path"/"op"/"from" member without a string), the heap-level run
+      - RETURNS NORMALLY — no memory-error outcome, whatever is refused — with status [st];
+      - leaves a document that reifies to [doc'], [G] untouched;
+      - [lk = None]: [MInv] and [NoLeak] for [G ++ [docT]] — nothing leaks: the statuses 13, 5, 8, 6, 9 of a refusal leave
+        no garbage (a partial duplicate, the duplicate itself, a MOVED item are released);
+      - [lk = Some lv] (status 0, the name copy inside cJSON_AddItemToObject refused): the value hangs nowhere; [MInv] and
+        [NoLeak] hold for [(G ++ [docT]) ++ [v]] with [reify v = lv]: the leak is EXACTLY that tree. *)
+Theorem C16_heap_fail_apply_patch : forall oracle h G doc pid dpt cpt flag,
+  MInv h (G ++ [doc]) -> T pid dpt cpt ∈ nodes G ->
+  PatchDefs.decode_patch_operation (reify (h_str h) (T pid dpt cpt)) flag <> Ok PatchDefs.TEST ->
+  exists fs : fails,
+  match apply_patch_f fs (reify (h_str h) doc) (reify (h_str h) (T pid dpt cpt)) flag with
+  | Ok (st, doc', pt', lk) =>
+      exists h' docT,
+        apply_patch oracle (Some (tid doc)) (Some pid) flag h = Ret (st, h') /\ tid docT = tid doc /\
+        reify (h_str h') docT = doc' /\ pt' = reify (h_str h) (T pid dpt cpt) /\ KeepO h h' G /\
+        (h_next h <= h_next h')%positive /\
+        match lk with
+        | None => MInv h' (G ++ [docT]) /\ (NoLeak h (G ++ [doc]) -> NoLeak h' (G ++ [docT]))
+        | Some lv => exists v, MInv h' ((G ++ [docT]) ++ [v]) /\ (NoLeak h (G ++ [doc]) -> NoLeak h' ((G ++ [docT]) ++ [v])) /\
+                               reify (h_str h') v = lv
+        end
+  | _ => True
+  end.
+Proof. exact apply_patch_oracle. Qed.
+Print Assumptions C16_heap_fail_apply_patch.
+
+(** a leaked root is outside the ledger of the rest: with [lk = Some lv], [NoLeak h' (G ++ [docT])] is FALSE *)
+Theorem C16_heap_fail_leak_is_a_leak : forall h G docT v, MInv h ((G ++ [docT]) ++ [v]) -> ~ NoLeak h (G ++ [docT]).
+Proof. exact leaked_root_not_NoLeak. Qed.
+
+(** the [test] operation makes no request: C16_heap_apply_patch_test holds verbatim for every oracle *)
+Theorem C16_heap_fail_test : forall oracle h A B doc rb ppt pid dpt cpt flag,
+  MInv h (F2 A B [] doc rb) -> subtree_t rb ppt = Some (T pid dpt cpt) ->
+  all_keyed (h_str h) doc ->
+  (forall vi m, found_member (h_str h) flag PatchDefs.s_value cpt = Some (vi, m) -> all_keyed (h_str h) m) ->
+  PatchDefs.decode_patch_operation (reify (h_str h) (T pid dpt cpt)) flag = Ok PatchDefs.TEST ->
+  test_post h A B doc rb ppt pid dpt cpt (apply_patch oracle (Some (tid doc)) (Some pid) flag h)
+    (PatchDefs.apply_patch (reify (h_str h) doc) (reify (h_str h) (T pid dpt cpt)) flag).
+Proof. exact apply_patch_test_refines_o. Qed.
+Print Assumptions C16_heap_fail_test.
+
+(** (e) THE ENTRY POINTS, ANY ORACLE.  [apply_patches_f fss]: the loop of the model with one record of refusal flags per
+    operation met; [run_okf]: when an operation met is a [test], the document at that moment and the operation's "value"
+    member are keyed — for every schedule (the oracle chooses it); it holds for patch arrays without [test].  Then: the run
+    returns normally, status / document / patch array are those of [apply_patches_f fss] for SOME [fss], the invariant
+    holds for the forest in which the leaked values [L] are additional roots, and [NoLeak] holds for that forest. *)
+Theorem C16_heap_fail_run_okf_is : forall fss object p r cs,
+  run_okf fss object (p :: r) cs <->
+  (PatchDefs.decode_patch_operation p cs = Ok PatchDefs.TEST -> vkeyed object) /\ value_keyed p cs /\
+  match apply_patch_f (hd no_fails fss) object p cs with
+  | Ok (st, o, _, _) => st = 0 -> run_okf (tl fss) o r cs
+  | _ => True
+  end.
+Proof. exact (fun fss object p r cs => conj (fun H => H) (fun H => H)). Qed.
+Theorem C16_heap_fail_run_okf_no_test : forall ps cs,
+  Forall (fun p => PatchDefs.decode_patch_operation p cs <> Ok PatchDefs.TEST) ps ->
+  forall fss object, run_okf fss object ps cs.
+Proof. exact run_okf_no_test. Qed.
+Theorem C16_heap_fail_apply_patches : forall oracle h A B doc rb ppa aid da elems flag,
+  MInv h (F2 A B [] doc rb) -> subtree_t rb ppa = Some (T aid da elems) ->
+  (Tree.is_array (reify (h_str h) (T aid da elems)) = true ->
+   forall fss, run_okf fss (reify (h_str h) doc) (map (reify (h_str h)) elems) flag) ->
+  exists fss : list fails,
+  match apply_patches_f fss (reify (h_str h) doc) (reify (h_str h) (T aid da elems)) flag with
+  | Ok (st, doc', patches', lks) =>
+      exists h' docT arrT L,
+        apply_patches oracle (Some (tid doc)) (Some aid) flag h = Ret (st, h') /\
+        MInv h' (F2 (L ++ A) B [] docT (put_t rb ppa arrT)) /\ tid docT = tid doc /\ tid arrT = aid /\
+        reify (h_str h') docT = doc' /\ reify (h_str h') arrT = patches' /\ reify (h_str h') <$> L = lks /\
+        (NoLeak h (F2 A B [] doc rb) -> NoLeak h' (F2 (L ++ A) B [] docT (put_t rb ppa arrT))) /\ (h_next h <= h_next h')%positive
+  | _ => True
+  end.
+Proof. exact apply_patches_oracle. Qed.
+Print Assumptions C16_heap_fail_apply_patches.
+
+(** (f) OBSERVED on the concrete heap of section 3/4 (document {"a":[1,2],"b":{"c":3}}), the transliteration RUN with an
+    oracle that refuses exactly the k-th request ([refuse k]), next to the model with refusals:
+    add /b/c "y" — requests 0 1 2 (duplicate): status 8, document untouched, nothing new live; request 3 (copy of the path):
+    status 9, likewise; request 4 (copy of the name "c" inside cJSON_AddItemToObject): status 0, the member "c" is GONE
+    ({"a":[1,2],"b":{}}), and the duplicate (node 1000, its valuestring 1001, its key "value" 1002) is live and linked
+    nowhere.  The real library behaves identically (ASan/LSan probe with malloc hooks: status 0, {"a":[1,2],"b":{}},
+    "72 byte(s) leaked in 3 allocation(s)"). *)
+Theorem C16_heap_alloc_failure_observed :
+  map (pf_status 8) [0; 1; 2]%nat = [Some 8; Some 8; Some 8] /\
+  map (pf_doc_after 8) [0; 1; 2]%nat = [Some (Some (pa_doc_v, true)); Some (Some (pa_doc_v, true)); Some (Some (pa_doc_v, true))] /\
+  map (pf_new_live 8) [0; 1; 2]%nat = [[]; []; []] /\
+  pf_model (mkFails false false true false false) 8 = Some (8, pa_doc_v, None) /\
+  pf_status 8 3 = Some 9 /\ pf_doc_after 8 3 = Some (Some (pa_doc_v, true)) /\ pf_new_live 8 3 = [] /\
+  pf_model (mkFails false false false true false) 8 = Some (9, pa_doc_v, None) /\
+  pf_status 8 4 = Some 0 /\ pf_doc_after 8 4 = Some (Some (pa_b_empty, true)) /\
+  pf_new_live 8 4 = [1000; 1002; 1001]%positive /\
+  h_lnk (out_heap (pf_run 8 4) pa_heap) !! 1000%positive = Some (None, None) /\
+  out_val (CoreOps.dump_node 50 (Some 1000%positive) (out_heap (pf_run 8 4) pa_heap)) = Some (Some (vstr [121] (Some PatchDefs.s_value), true)) /\
+  pf_model (mkFails false false false false true) 8 = Some (0, pa_b_empty, Some (vstr [121] (Some PatchDefs.s_value))) /\
+  pf_status 8 5 = Some 0 /\ pf_new_live 8 5 = [1000; 1004; 1001]%positive.
+Proof. exact pf_add_runs. Qed.
+Print Assumptions C16_heap_alloc_failure_observed.
+Theorem C16_heap_alloc_failure_run_is : forall op k,
+  pf_run op k = apply_patch (fun n => Nat.eqb n k) (Some (tid pa_doc)) (Some (tid (pa_pt op))) true pa_heap /\
+  pf_status op k = out_val (pf_run op k) /\
+  pf_doc_after op k = out_val (CoreOps.dump_node 50 (Some (tid pa_doc)) (out_heap (pf_run op k) pa_heap)) /\
+  pf_new_live op k = filter (fun b => bool_decide (b ∉ lib_live pa_heap)) (elements (lib_live (out_heap (pf_run op k) pa_heap))).
+Proof. exact (fun op k => conj eq_refl (conj eq_refl (conj eq_refl eq_refl))). Qed.
+(** replace /a/0 "x": the copy of the path inside detach_path refused: 13 ("no such item"), document untouched; the duplicate
+    refused: 8 AFTER the old value has been deleted.  move /b to /a/-: the copy of "from" refused: 5; the copy of the path for
+    the insertion refused: 9 and the MOVED ITEM IS DESTROYED ({"a":[1,2]}) — also in the real library. *)
+Theorem C16_heap_alloc_failure_replace_move_observed :
+  (pf_status 2 0 = Some 13 /\ pf_doc_after 2 0 = Some (Some (pa_doc_v, true)) /\ pf_new_live 2 0 = [] /\
+   pf_model (mkFails true false false false false) 2 = Some (13, pa_doc_v, None) /\
+   pf_status 2 1 = Some 8 /\
+   pf_doc_after 2 1 = Some (Some (vobj None [varr (Some [97]) [vnum 2 None]; vobj (Some [98]) [vnum 3 (Some [99])]], true)) /\
+   pf_new_live 2 1 = [] /\
+   pf_model (mkFails false false true false false) 2 =
+     Some (8, vobj None [varr (Some [97]) [vnum 2 None]; vobj (Some [98]) [vnum 3 (Some [99])]], None)) /\
+  (pf_status 3 0 = Some 5 /\ pf_doc_after 3 0 = Some (Some (pa_doc_v, true)) /\
+   pf_model (mkFails false true false false false) 3 = Some (5, pa_doc_v, None) /\
+   pf_status 3 1 = Some 9 /\
+   pf_doc_after 3 1 = Some (Some (vobj None [varr (Some [97]) [vnum 1 None; vnum 2 None]], true)) /\ pf_new_live 3 1 = [] /\
+   pf_model (mkFails false false false true false) 3 = Some (9, vobj None [varr (Some [97]) [vnum 1 None; vnum 2 None]], None)).
+Proof. exact (conj pf_replace_runs pf_move_runs). Qed.
+
+(** non-vacuity of (d) and (e): their hypotheses hold on that heap for EVERY oracle *)
+Theorem C16_heap_fail_nonvacuous : forall (oracle : nat -> bool) (k : nat) t,
+  tchildren pa_patches !! k = Some t ->
+  PatchDefs.decode_patch_operation (reify (h_str pa_heap) t) true <> Ok PatchDefs.TEST ->
+  exists fs : fails,
+  match apply_patch_f fs (reify (h_str pa_heap) pa_doc) (reify (h_str pa_heap) t) true with
+  | Ok (st, doc', pt', lk) =>
+      exists h' docT,
+        apply_patch oracle (Some (tid pa_doc)) (Some (tid t)) true pa_heap = Ret (st, h') /\
+        reify (h_str h') docT = doc' /\
+        match lk with
+        | None => MInv h' (pa_G ++ [docT]) /\ NoLeak h' (pa_G ++ [docT])
+        | Some lv => exists v, MInv h' ((pa_G ++ [docT]) ++ [v]) /\ NoLeak h' ((pa_G ++ [docT]) ++ [v]) /\
+                               reify (h_str h') v = lv /\ ~ NoLeak h' (pa_G ++ [docT])
+        end
+  | _ => True
+  end.
+Proof. exact pf_stage. Qed.
+Print Assumptions C16_heap_fail_nonvacuous.
+Theorem C16_heap_fail_entry_nonvacuous : forall oracle : nat -> bool,
+  exists fss : list fails,
+  match apply_patches_f fss pa_doc_v pa_patches_v true with
+  | Ok (st, doc', patches', lks) =>
+      exists h' docT arrT L,
+        cJSONUtils_ApplyPatchesCaseSensitive oracle (Some (tid pa_doc)) (Some (tid pa_patches)) pa_heap = Ret (st, h') /\
+        MInv h' (F2 (L ++ []) [] [] docT (put_t pa_patches [] arrT)) /\
+        NoLeak h' (F2 (L ++ []) [] [] docT (put_t pa_patches [] arrT)) /\
+        reify (h_str h') docT = doc' /\ reify (h_str h') <$> L = lks
+  | _ => True
+  end.
+Proof. exact pf_entry. Qed.
+Print Assumptions C16_heap_fail_entry_nonvacuous.
